@@ -9,6 +9,7 @@ import pandas as pd
 import z3
 
 from pvx.harness import Ob
+from pvx.npproxy import alias_update as _alias_update
 from pvx.loader import load, tdomain
 from pvx.sym import T, TSym, Sym, t_const, T_ZERO, T_ONE
 from pvx.zdomain import explore_z, ZCtx
@@ -129,11 +130,11 @@ def _no_data_branch_unreachable(ctx, py):
             return inc
         ns = dict(F.__dict__)
         from pvx.zdomain import OPAQUE, zmin, zmax, Stop, ObligationFailed
-        ns.update(__pvx=hooks, np=sched.ZNp(w), pd=OPAQUE, kalman=OPAQUE, transform=OPAQUE, earth=OPAQUE, Rotation=OPAQUE,
+        _alias_update(ns, F.__dict__, dict(__pvx=hooks, np=sched.ZNp(w), pd=OPAQUE, kalman=OPAQUE, transform=OPAQUE, earth=OPAQUE, Rotation=OPAQUE,
                   util=cap, strapdown=StrapNS, inertial_sensor=InertialNS, InsErrorModel=lambda wa=True: OPAQUE,
                   _correct_increments=correct_increments, _initialize_covariance=lambda *a, **k: OPAQUE,
                   _compute_error_propagation_matrices=lambda *a, **k: (OPAQUE, OPAQUE), _compute_sd=lambda *a, **k: (OPAQUE, OPAQUE, OPAQUE),
-                  _interpolate_pva=lambda *a, **k: OPAQUE, min=zmin, max=zmax, len=sched.zlen)
+                  _interpolate_pva=lambda *a, **k: OPAQUE, min=zmin, max=zmax, len=sched.zlen))
         from pvx import loopcut
         fn, _ = loopcut.instantiate(F.run_feedback_filter, code, ns)
         from pvx.zdomain import ZSym
